@@ -132,3 +132,79 @@ theorem pyInputs_sized {α} [Inhabited α] (t : IdM.Table String) (decls : List 
   simp [Sized, pyInputs, IdM.freeValues, IdM.fixedValues]
 
 end Engine
+
+namespace Expr
+
+/-- a semantics that reads the environment only at the name of a parameter / variable node -/
+theorem semCommon_env_local {α} [NumOps α] (n : Node α) (env env' : Env α) (rs : List (Res α))
+    (hb : n.kind = .beta → env.beta n.name = env'.beta n.name)
+    (hv : n.kind = .var → env.var n.name = env'.var n.name) :
+    semCommon n env rs = semCommon n env' rs := by
+  obtain ⟨k, c, nm, v, ks, ms, f⟩ := n
+  cases k
+  case beta => simp only [semCommon]; rw [hb rfl]
+  case var => simp only [semCommon]; rw [hv rfl]
+  all_goals rfl
+
+theorem evalN_env_congr {α} [NumOps α] (d : Dag α) (env env' : Env α)
+    (h : ∀ (k : Nat) (n : Node α), d[k]? = some n →
+      (n.kind = .beta → env.beta n.name = env'.beta n.name) ∧
+      (n.kind = .var → env.var n.name = env'.var n.name)) :
+    ∀ fuel k, evalN semMath d env fuel k = evalN semMath d env' fuel k := by
+  intro fuel
+  induction fuel with
+  | zero => intro k; rfl
+  | succ fuel ih =>
+    intro k
+    rw [evalN, evalN]
+    cases hd : d[k]? with
+    | none => rfl
+    | some n =>
+      simp only []
+      have hc : n.children.map (evalN semMath d env fuel) = n.children.map (evalN semMath d env' fuel) := by
+        apply List.map_congr_left
+        intro c _
+        exact ih c
+      rw [hc]
+      exact semCommon_env_local n env env' _ (h k n hd).1 (h k n hd).2
+
+end Expr
+
+namespace Engine
+open Expr
+
+/-- the valuation *by name* that the user states: a free parameter has the dictionary value if the
+dictionary names it, else its starting value; a fixed parameter has its declared value; a data
+variable has the value of its column in the row -/
+noncomputable def namedEnv (decls : List (IdM.Decl String ℝ)) (dict : String → Option ℝ)
+    (row : String → ℝ) : Env ℝ where
+  beta := fun n =>
+    match IdM.lookupLast decls false n with
+    | some d => (dict n).getD d.init
+    | none => ((IdM.lookupLast decls true n).map (·.init)).getD default
+  var := row
+
+theorem lookupLast_none_of_not_mem (decls : List (IdM.Decl String ℝ)) (fixed : Bool) (n : String)
+    (h : n ∉ (decls.filter (fun d => d.fixed == fixed)).map (·.name)) :
+    IdM.lookupLast decls fixed n = none := by
+  unfold IdM.lookupLast
+  rw [List.find?_eq_none]
+  intro d hd
+  simp only [List.mem_reverse] at hd
+  intro hcon
+  simp only [Bool.and_eq_true, decide_eq_true_eq] at hcon
+  apply h
+  simp only [List.mem_map, List.mem_filter]
+  exact ⟨d, ⟨hd, hcon.2⟩, hcon.1⟩
+
+theorem lookupLast_some_of_mem (decls : List (IdM.Decl String ℝ)) (fixed : Bool) (n : String)
+    (h : ∃ d ∈ decls, d.name = n ∧ d.fixed = fixed) :
+    ∃ d, IdM.lookupLast decls fixed n = some d := by
+  unfold IdM.lookupLast
+  obtain ⟨d, hd, hn, hf⟩ := h
+  have : (decls.reverse.find? fun d => d.name = n && d.fixed == fixed).isSome := by
+    rw [List.find?_isSome]
+    exact ⟨d, by simpa using hd, by simp [hn, hf]⟩
+  exact Option.isSome_iff_exists.mp this
+
+end Engine
